@@ -25,22 +25,24 @@ CONSTANTS MaxHist, Seeds
 
 Types == {"continental plate", "oceanic plate", "mantle layer", "plume", "subducting plate", "fault"}
 Kinds == {"random uniform distribution", "random uniform distribution deflected"}
-Worlds == {w \in [type : Types, kind : Kinds] : w.type = "plume" => w.kind = "random uniform distribution deflected"}
+(* perm: the composition labels are listed in the other order (label # position in the lists) *)
+Worlds == {w \in [type : Types, kind : Kinds, perm : BOOLEAN] : w.type = "plume" => w.kind = "random uniform distribution deflected"}
+Ord(w, pair) == IF w.perm THEN <<pair[2], pair[1]>> ELSE pair
 IsLine(t) == t \in {"subducting plate", "fault"}
 
 Id3 == << <<1, 0, 0>>, <<0, 1, 0>>, <<0, 0, 1>> >>
 GrainsModel(w) ==
-     ("model" :> w.kind) @@ ("compositions" :> <<0, 1>>) @@ ("grain sizes" :> <<-1, Dec(5, -1)>>)
-  @@ ("normalize grain sizes" :> <<TRUE, FALSE>>)
+     ("model" :> w.kind) @@ ("compositions" :> Ord(w, <<0, 1>>)) @@ ("grain sizes" :> Ord(w, <<-1, Dec(5, -1)>>))
+  @@ ("normalize grain sizes" :> Ord(w, <<TRUE, FALSE>>))
   @@ (IF w.kind = "random uniform distribution deflected"
-      THEN ("deflections" :> <<1, Dec(5, -1)>>) @@ ("basis rotation matrices" :> <<Id3, Id3>>) ELSE <<>>)
-RandomComposition == ("model" :> "random") @@ ("compositions" :> <<7, 8>>)
-                     @@ ("min value" :> <<Dec(25, -2), 10>>) @@ ("max value" :> <<Dec(75, -2), 11>>)
+      THEN ("deflections" :> Ord(w, <<1, Dec(5, -1)>>)) @@ ("basis rotation matrices" :> <<Id3, Id3>>) ELSE <<>>)
+RandomComposition(w) == ("model" :> "random") @@ ("compositions" :> Ord(w, <<7, 8>>))
+                        @@ ("min value" :> Ord(w, <<Dec(25, -2), 10>>)) @@ ("max value" :> Ord(w, <<Dec(75, -2), 11>>))
 
 Feature(w) ==
   CASE w.type \in {"continental plate", "oceanic plate", "mantle layer"} ->
          Area(w.type, "f", Rect(0, 0, 500*Km, 500*Km), 0, 100*Km, <<>>,
-              IF w.type = "continental plate" THEN <<RandomComposition>> ELSE <<>>, <<GrainsModel(w)>>, <<>>)
+              IF w.type = "continental plate" THEN <<RandomComposition(w)>> ELSE <<>>, <<GrainsModel(w)>>, <<>>)
     [] w.type = "plume" ->
          Plume("f", <<<<250*Km, 250*Km>>, <<250*Km, 250*Km>>>>, <<20*Km, 80*Km>>, <<100*Km, 100*Km>>, <<0, 0>>, <<0, 0>>,
                10*Km, 100*Km, <<>>, <<>>, <<GrainsModel(w)>>, <<>>)
@@ -115,7 +117,7 @@ Steps(k) ==
 
 Behaviour ==
   [id |-> <<"rng", world, seed, [k \in 1..Len(hist) |-> hist[k][1][1]]>>,
-   labels |-> <<"rng", world.type, world.kind>>,
+   labels |-> <<"rng", world.type, world.kind, IF world.perm THEN "labels-permuted" ELSE "labels-in-order">>,
    steps |-> << [op |-> "create", h |-> 1, wb |-> Doc(world, -1), seed |-> seed],
                 [op |-> "create", h |-> 2, wb |-> Doc(world, seed), seed |-> seed + 17],
                 [op |-> "create", h |-> 3, wb |-> Doc(world, -1), seed |-> seed + 1],
